@@ -470,7 +470,7 @@ Proof.
 Qed.
 
 Lemma mc_inv_discard x m f : mc_inv m f -> (0 < f x)%nat ->
-  mc_inv (mc_discard x m) (fun y => if Z.eqb y x then pred (f y) else f y).
+  mc_inv (mc_discard x m) (fun y => if Z.eqb y x then (f y - 1)%nat else f y).
 Proof.
   intros (ND & Pos & Cnt & Mx) Hx. unfold mc_discard.
   assert (Hin : In x (cn_keys (mc_c m))) by (apply cn_get_pos; [exact Pos|rewrite Cnt; exact Hx]).
@@ -501,4 +501,255 @@ Lemma mc_inv_max m l : mc_inv m (count_occ Z.eq_dec l) -> is_max_opt (mc_max m) 
 Proof.
   intros (ND & Pos & Cnt & Mx). apply (is_max_opt_same_set _ (cn_keys (mc_c m))); [|exact Mx].
   intros x. rewrite (cn_get_pos x _ Pos), Cnt. symmetry. apply count_occ_In.
+Qed.
+
+(* ================================================================== *)
+(* Part 2: ContractionCosts                                             *)
+Definition row_remove (ix : ix) (d : Z) (r : row) : row :=
+  if memb ix (r_inv r) then
+    (filter (fun j => negb (Nat.eqb j ix)) (r_inv r),
+     if memb ix (r_legs r)
+     then (filter (fun j => negb (Nat.eqb j ix)) (r_legs r), (r_size r / d, r_flops r / d))
+     else (r_legs r, (r_size r, r_flops r / d)))
+  else r.
+
+Definition row_ok (sd : zdict) (r : row) : Prop :=
+  NoDup (r_inv r) /\ NoDup (r_legs r) /\ incl (r_legs r) (r_inv r) /\
+  r_flops r = size_of sd (r_inv r) /\ r_size r = size_of sd (r_legs r).
+
+Definition sd_pos (sd : zdict) : Prop := forall kv, In kv sd -> 0 < snd kv.
+Lemma sd_pos_zget sd j : sd_pos sd -> 0 < zget j sd.
+Proof.
+  induction sd as [|[k v] sd IH]; cbn; intros Hp; [lia|].
+  destruct (Nat.eqb_spec k j); [apply (Hp (k, v)); left; reflexivity|].
+  apply IH. intros kv Hkv. apply Hp. right; exact Hkv.
+Qed.
+Lemma sd_pos_del x sd : sd_pos sd -> sd_pos (zd_del x sd).
+Proof.
+  induction sd as [|[k v] sd IH]; cbn; intros Hp kv; [intros []|].
+  destruct (Nat.eqb_spec k x); cbn.
+  - intros Hin. apply Hp. right; exact Hin.
+  - intros [<-|Hin]; [apply (Hp (k, v)); left; reflexivity|].
+    apply IH; [|exact Hin]. intros kv' Hkv'. apply Hp. right; exact Hkv'.
+Qed.
+
+Lemma row_remove_ok sd ix r : row_ok sd r -> 0 < zget ix sd ->
+  row_ok sd (row_remove ix (zget ix sd) r) /\ ~ In ix (r_inv (row_remove ix (zget ix sd) r)).
+Proof.
+  intros (N1 & N2 & Hincl & Hf & Hs) Hp. unfold row_remove.
+  destruct (memb ix (r_inv r)) eqn:Ei.
+  - apply memb_In in Ei.
+    assert (Hincl' : incl (filter (fun j => negb (Nat.eqb j ix)) (r_legs r)) (filter (fun j => negb (Nat.eqb j ix)) (r_inv r))).
+    { intros j Hj. apply filter_neq_in in Hj. apply filter_neq_in. split; [apply Hincl; tauto|tauto]. }
+    destruct (memb ix (r_legs r)) eqn:El; cbn [r_inv r_legs r_size r_flops fst snd].
+    + apply memb_In in El. split; [|intros H; apply filter_neq_in in H; tauto].
+      repeat split; try apply NoDup_filter; try assumption.
+      * rewrite Hf. apply size_of_div; assumption.
+      * rewrite Hs. apply size_of_div; assumption.
+    + apply memb_false in El. split; [|intros H; apply filter_neq_in in H; tauto].
+      repeat split; try apply NoDup_filter; try assumption.
+      * intros j Hj. apply filter_neq_in. split; [apply Hincl, Hj|]. intros ->. contradiction.
+      * rewrite Hf. apply size_of_div; assumption.
+  - apply memb_false in Ei. split; [|exact Ei]. repeat split; assumption.
+Qed.
+
+(* ---- the derived fields equal their from-scratch definitions ---- *)
+Definition wh_nonempty (w : wdict) : Prop := forall kv, In kv w -> snd kv <> [].
+Definition involves (tab : list row) (j : ix) (i : nat) : Prop :=
+  exists r, nth_error tab i = Some r /\ In j (r_inv r).
+Definition where_ok (tab : list row) (j : ix) (w : wdict) : Prop :=
+  NoDup (wh_get0 j w) /\ forall i, In i (wh_get0 j w) <-> involves tab j i.
+
+Definition derived_on (tab : list row) (P : ix -> Prop) (c : costs) : Prop :=
+  c_flops c = zsum (map r_flops tab) /\
+  mc_inv (c_sizes c) (count_occ Z.eq_dec (map r_size tab)) /\
+  wh_nonempty (c_where c) /\
+  forall j, P j -> zd_get0 j (c_fred c) = fred_def (c_sd c) tab j /\
+                   zd_get0 j (c_wred c) = wred_def (c_sd c) tab j /\
+                   where_ok tab j (c_where c).
+
+Definition Inv (c : costs) : Prop :=
+  Forall (row_ok (c_sd c)) (c_tab c) /\ sd_pos (c_sd c) /\ NoDup (zd_keys (c_sd c)) /\
+  derived_on (c_tab c) (fun j => In j (zd_keys (c_sd c))) c.
+
+Lemma wh_get_in j w v : wh_get j w = Some v -> In (j, v) w.
+Proof.
+  induction w as [|[k u] w IH]; cbn; [congruence|].
+  destruct (Nat.eqb_spec k j) as [->|H]; [intros [= ->]; auto|auto].
+Qed.
+
+Lemma wh_nonempty_add j i w : wh_nonempty w -> wh_nonempty (wh_add j i w).
+Proof.
+  induction w as [|[k u] w IH]; cbn; intros Hn kv.
+  - intros [<-|[]]. cbn. congruence.
+  - assert (Hn' : wh_nonempty w) by (intros kv' H'; apply Hn; right; exact H').
+    destruct (Nat.eqb_spec k j) as [->|Hne]; cbn.
+    + intros [<-|Hin]; [|apply Hn; right; exact Hin]. cbn.
+      destruct (memb i u); [apply (Hn (j, u)); left; reflexivity|]. destruct u; cbn; congruence.
+    + intros [<-|Hin]; [apply (Hn (k, u)); left; reflexivity|]. apply IH; assumption.
+Qed.
+
+Lemma wh_nonempty_del j w : wh_nonempty w -> wh_nonempty (wh_del j w).
+Proof.
+  induction w as [|[k u] w IH]; cbn; intros Hn kv; [intros []|].
+  assert (Hn' : wh_nonempty w) by (intros kv' H'; apply Hn; right; exact H').
+  destruct (Nat.eqb_spec k j); cbn.
+  - intros Hin. apply Hn'. exact Hin.
+  - intros [<-|Hin]; [apply (Hn (k, u)); left; reflexivity|]. apply IH; assumption.
+Qed.
+
+(* ---- one iteration of the loop of remove ---- *)
+Definition fred_delta (sd : zdict) (fl d : Z) (oix : ix) : Z :=
+  (fl - fl / sd_get oix sd) / d - (fl - fl / sd_get oix sd).
+Definition wred_delta (sd : zdict) (sz d : Z) (oix : ix) : Z :=
+  - ((sz - sz / sd_get oix sd) - (sz - sz / sd_get oix sd) / d).
+
+Lemma remove_at_eq ix d c i r : nth_error (c_tab c) i = Some r ->
+  remove_at ix d c i =
+  let new_inv := filter (fun j => negb (Nat.eqb j ix)) (r_inv r) in
+  let fred' := fold_left (fun fr oix => zd_add oix (fred_delta (c_sd c) (r_flops r) d oix) fr) new_inv (c_fred c) in
+  if memb ix (r_legs r) then
+    let new_legs := filter (fun j => negb (Nat.eqb j ix)) (r_legs r) in
+    mkCosts (c_sd c) (replace_at i (new_inv, (new_legs, (r_size r / d, r_flops r / d))) (c_tab c))
+            (c_nsl c) (c_orig c) (c_flops c + (r_flops r / d - r_flops r))
+            (mc_add (r_size r / d) (mc_discard (r_size r) (c_sizes c))) fred'
+            (fold_left (fun wr oix => zd_add oix (wred_delta (c_sd c) (r_size r) d oix) wr) new_legs (c_wred c))
+            (c_where c)
+  else
+    mkCosts (c_sd c) (replace_at i (new_inv, (r_legs r, (r_size r, r_flops r / d))) (c_tab c))
+            (c_nsl c) (c_orig c) (c_flops c + (r_flops r / d - r_flops r))
+            (c_sizes c) fred' (c_wred c) (c_where c).
+Proof.
+  intros H. unfold remove_at. rewrite H. cbn zeta. destruct (memb ix (r_legs r)); reflexivity.
+Qed.
+
+Lemma row_remove_replace ix d r : In ix (r_inv r) ->
+  row_remove ix d r =
+  (filter (fun j => negb (Nat.eqb j ix)) (r_inv r),
+   if memb ix (r_legs r)
+   then (filter (fun j => negb (Nat.eqb j ix)) (r_legs r), (r_size r / d, r_flops r / d))
+   else (r_legs r, (r_size r, r_flops r / d))).
+Proof. intros H. unfold row_remove. apply memb_In in H. rewrite H. reflexivity. Qed.
+
+Lemma involves_replace tab i r r' j k : nth_error tab i = Some r ->
+  (In j (r_inv r') <-> In j (r_inv r)) ->
+  (involves (replace_at i r' tab) j k <-> involves tab j k).
+Proof.
+  intros H Hiff. unfold involves. split; intros (r0 & Hn & Hin).
+  - rewrite (nth_error_replace_at tab i r r' k H) in Hn.
+    destruct (Nat.eqb_spec k i) as [->|Hne].
+    + injection Hn as <-. exists r. split; [exact H|apply Hiff, Hin].
+    + exists r0. split; assumption.
+  - destruct (Nat.eqb_spec k i) as [->|Hne].
+    + exists r'. split.
+      * rewrite (nth_error_replace_at tab i r r' i H), Nat.eqb_refl. reflexivity.
+      * rewrite H in Hn. injection Hn as <-. apply Hiff, Hin.
+    + exists r0. split; [|exact Hin].
+      rewrite (nth_error_replace_at tab i r r' k H). destruct (Nat.eqb_spec k i); [contradiction|exact Hn].
+Qed.
+
+Lemma in_nth_error_count (tab : list row) i r : nth_error tab i = Some r ->
+  (0 < count_occ Z.eq_dec (map r_size tab) (r_size r))%nat.
+Proof.
+  intros H. apply count_occ_In. apply in_map. apply (nth_error_In _ _ H).
+Qed.
+
+Lemma remove_at_step (P : ix -> Prop) ix c i r :
+  let d := zget ix (c_sd c) in
+  nth_error (c_tab c) i = Some r -> row_ok (c_sd c) r -> In ix (r_inv r) ->
+  sd_pos (c_sd c) -> (forall j, P j -> j <> ix) ->
+  derived_on (c_tab c) P c ->
+  let c' := remove_at ix d c i in
+  c_tab c' = replace_at i (row_remove ix d r) (c_tab c) /\ c_sd c' = c_sd c /\
+  c_where c' = c_where c /\ c_nsl c' = c_nsl c /\ c_orig c' = c_orig c /\
+  derived_on (c_tab c') P c'.
+Proof.
+  intros d Hn (N1 & N2 & Hincl & Hf & Hs) Hix Hpos HP (Dfl & Dmc & Dne & Dj) c'.
+  assert (Hd : 0 < d) by (apply sd_pos_zget, Hpos).
+  assert (Hposj : forall j, 0 < zget j (c_sd c)) by (intros j; apply sd_pos_zget, Hpos).
+  subst c'. rewrite (remove_at_eq ix d c i r Hn). cbn zeta.
+  rewrite (row_remove_replace ix d r Hix).
+  set (new_inv := filter (fun j => negb (Nat.eqb j ix)) (r_inv r)).
+  assert (NDi : NoDup new_inv) by (apply NoDup_filter, N1).
+  (* the flop reductions of the other indices *)
+  assert (Fred : forall tab' r', tab' = replace_at i r' (c_tab c) -> r_inv r' = new_inv ->
+            r_flops r' = r_flops r / d -> forall j, P j ->
+            zd_get0 j (fold_left (fun fr oix => zd_add oix (fred_delta (c_sd c) (r_flops r) d oix) fr) new_inv (c_fred c))
+            = fred_def (c_sd c) tab' j).
+  { intros tab' r' -> Ei Ef j Pj. rewrite fold_zd_add_get by exact NDi.
+    destruct (Dj j Pj) as (E1 & _ & _). rewrite E1. unfold fred_def.
+    rewrite (zsum_map_replace _ (c_tab c) i r r' Hn). rewrite Ei, Ef.
+    assert (Hne : j <> ix) by (apply HP, Pj).
+    unfold new_inv. rewrite (memb_filter_neq ix j (r_inv r) Hne).
+    destruct (memb j (r_inv r)) eqn:Em; [|lia].
+    apply memb_In in Em.
+    destruct (size_of_two ix j (c_sd c) (r_inv r) N1 Hix Em Hne) as (m & Hm).
+    unfold fred_delta, sd_get. rewrite <- Hf in Hm.
+    rewrite (red_div (r_flops r) d (zget j (c_sd c)) m Hd (Hposj j) Hm). lia. }
+  assert (Hcnt : (0 < count_occ Z.eq_dec (map r_size (c_tab c)) (r_size r))%nat)
+    by (apply (in_nth_error_count _ i), Hn).
+  assert (Hiff : forall j, P j -> (In j new_inv <-> In j (r_inv r))).
+  { intros j Pj. unfold new_inv. rewrite filter_neq_in. assert (j <> ix) by (apply HP, Pj). tauto. }
+  destruct (memb ix (r_legs r)) eqn:El.
+  - (* ix is a leg: size, _sizes and write reductions change too *)
+    apply memb_In in El.
+    set (new_legs := filter (fun j => negb (Nat.eqb j ix)) (r_legs r)).
+    set (r' := (new_inv, (new_legs, (r_size r / d, r_flops r / d))) : row).
+    cbn [c_tab c_sd c_where c_nsl c_orig].
+    split; [reflexivity|]. split; [reflexivity|]. split; [reflexivity|]. split; [reflexivity|]. split; [reflexivity|].
+    unfold derived_on. cbn [c_flops c_sizes c_fred c_wred c_where c_sd].
+    split; [|split; [|split; [exact Dne|intros j Pj; split; [|split; [|split; [apply (Dj j Pj)|intros k; split; intros Hi]]]]]].
+    + rewrite (zsum_map_replace _ (c_tab c) i r r' Hn), Dfl. unfold r' at 1. cbn [r_flops fst snd]. lia.
+    + apply (mc_inv_ext _ (fun y => if Z.eqb y (r_size r / d)
+                                     then S (if Z.eqb y (r_size r) then (count_occ Z.eq_dec (map r_size (c_tab c)) y - 1)%nat
+                                             else count_occ Z.eq_dec (map r_size (c_tab c)) y)
+                                     else (if Z.eqb y (r_size r) then (count_occ Z.eq_dec (map r_size (c_tab c)) y - 1)%nat
+                                           else count_occ Z.eq_dec (map r_size (c_tab c)) y))).
+      * intros y.
+        pose proof (count_occ_map_replace r_size (c_tab c) i r r' y Hn) as Hc.
+        change (r_size r') with (r_size r / d) in Hc.
+        match goal with |- _ = ?b => change (count_occ Z.eq_dec (map r_size (replace_at i r' (c_tab c))) y) with b in Hc end.
+        destruct (Z.eqb_spec y (r_size r / d)) as [E1|E1], (Z.eqb_spec y (r_size r)) as [E2|E2];
+          try (rewrite <- E2 in Hcnt); lia.
+      * apply (mc_inv_add (r_size r / d) (mc_discard (r_size r) (c_sizes c))
+                 (fun y => if Z.eqb y (r_size r) then (count_occ Z.eq_dec (map r_size (c_tab c)) y - 1)%nat
+                           else count_occ Z.eq_dec (map r_size (c_tab c)) y)).
+        apply mc_inv_discard; [exact Dmc|exact Hcnt].
+    + apply (Fred _ r'); [reflexivity|reflexivity|reflexivity|exact Pj].
+    + assert (NDl : NoDup new_legs) by (apply NoDup_filter, N2).
+      rewrite fold_zd_add_get by exact NDl.
+      destruct (Dj j Pj) as (_ & E2 & _). rewrite E2. unfold wred_def.
+      rewrite (zsum_map_replace _ (c_tab c) i r r' Hn).
+      unfold r'. cbn [r_inv r_legs r_size fst snd].
+      assert (Hne : j <> ix) by (apply HP, Pj).
+      unfold new_legs, new_inv. rewrite !(memb_filter_neq ix j _ Hne).
+      destruct (memb j (r_legs r)) eqn:Em; [|rewrite !andb_false_r; lia].
+      apply memb_In in Em.
+      assert (Emi : memb j (r_inv r) = true) by (apply memb_In, Hincl, Em). rewrite Emi. cbn [andb].
+      destruct (size_of_two ix j (c_sd c) (r_legs r) N2 El Em Hne) as (m & Hm).
+      unfold wred_delta, sd_get. rewrite <- Hs in Hm.
+      rewrite (red_div (r_size r) d (zget j (c_sd c)) m Hd (Hposj j) Hm). lia.
+    + apply (involves_replace (c_tab c) i r r' j k Hn (Hiff j Pj)). apply (Dj j Pj), Hi.
+    + apply (Dj j Pj). apply (involves_replace (c_tab c) i r r' j k Hn (Hiff j Pj)), Hi.
+  - (* ix is not a leg of this contraction *)
+    apply memb_false in El.
+    set (r' := (new_inv, (r_legs r, (r_size r, r_flops r / d))) : row).
+    cbn [c_tab c_sd c_where c_nsl c_orig].
+    split; [reflexivity|]. split; [reflexivity|]. split; [reflexivity|]. split; [reflexivity|]. split; [reflexivity|].
+    unfold derived_on. cbn [c_flops c_sizes c_fred c_wred c_where c_sd].
+    split; [|split; [|split; [exact Dne|intros j Pj; split; [|split; [|split; [apply (Dj j Pj)|intros k; split; intros Hi]]]]]].
+    + rewrite (zsum_map_replace _ (c_tab c) i r r' Hn), Dfl. unfold r' at 1. cbn [r_flops fst snd]. lia.
+    + eapply mc_inv_ext; [|exact Dmc].
+      intros y. pose proof (count_occ_map_replace r_size (c_tab c) i r r' y Hn) as Hc.
+      change (r_size r') with (r_size r) in Hc.
+      match goal with |- _ = ?b => change (count_occ Z.eq_dec (map r_size (replace_at i r' (c_tab c))) y) with b in Hc end.
+      lia.
+    + apply (Fred _ r'); [reflexivity|reflexivity|reflexivity|exact Pj].
+    + destruct (Dj j Pj) as (_ & E2 & _). rewrite E2. unfold wred_def.
+      rewrite (zsum_map_replace _ (c_tab c) i r r' Hn).
+      unfold r'. cbn [r_inv r_legs r_size fst snd].
+      assert (Hne : j <> ix) by (apply HP, Pj).
+      unfold new_inv. rewrite (memb_filter_neq ix j _ Hne). lia.
+    + apply (involves_replace (c_tab c) i r r' j k Hn (Hiff j Pj)). apply (Dj j Pj), Hi.
+    + apply (Dj j Pj). apply (involves_replace (c_tab c) i r r' j k Hn (Hiff j Pj)), Hi.
 Qed.
